@@ -3,12 +3,10 @@ SPEC = {
     'harness': 'hC33',
     'coq_dir': 'C33',
     'claimed': False,
-    'theorems': ['C33_recovered_paths_total_refuted', 'C33_recovered_paths_total', 'C33_recovered_guard_example',
-                 'C33_no_panic_outside_recover_refuted', 'C33_no_panic_outside_recover_partial',
-                 'C33_partial_needs_validation',
-                 'C33_partial_guard_example', 'C33_crash_characterisation',
-                 'C33_loop_panics_only_at_group_expansion', 'C33_wellformed_never_panics',
-                 'C33_wellformed_example'],
+    'theorems': ['C33_recovered_paths_total', 'C33_recovered_guard_example',
+                 'C33_no_panic_outside_recover', 'C33_no_panic_example', 'C33_validator_optional_example',
+                 'C33_crash_characterisation', 'C33_loop_never_panics',
+                 'C33_light_block_never_panics', 'C33_light_block_example'],
     'allowed_axioms': [],
     'shard': 60,
     'check_preamble': 'From C33 Require Import C33.Model.\nOpen Scope Z_scope.\n',
@@ -21,14 +19,16 @@ SPEC = {
             'transactions or is empty), iterations of the pending loop with a virtual clock (types.SetTimeDelta; '
             'timeouts 1-5 s; the clock also steps back), node height changes, block request / response / unknown peer '
             'messages (decodable or not, nil ProtoMsg, heights -1..6, locally unavailable heights), iterations of '
-            'the block-request loop. Streams: "guarded" (pools stripped of expanding entries whenever the guard '
-            'fits_hist of the partial theorem fails, validation enabled: every spec failure is a violation), "unrestricted" and '
-            '"malformed" (every light block malformed; validation disabled in 1 of 8 cases) may hit findings 1 and 3; there the loops are driven one iteration '
+            'the block-request loop. Streams: "guarded" (pools stripped of expanding entries whenever some group would not '
+            'fit behind its short hash in some light block of the history, validation enabled: more blocks complete), '
+            '"unrestricted" and "malformed" (every light block malformed; validation disabled in 1 of 8 cases). There is no '
+            'open finding: every spec failure in every stream is a violation. In these streams the loops are driven one iteration '
             'at a time through the hook and a panic of the loop body is caught by the harness. "live": 21 hand-written '
             '+ 6 (40 thorough) generated histories, each in a CHILD process (RLIMIT_AS 16 GiB) with the real '
             'pendBlockLoop/blockRequestLoop goroutines and real time; the observable is the exit status and what was '
-            'posted/published before; includes the witnesses of the three findings (group overrun in the loop; TxCount 2^40 '
-            'and 2^45; nil validator) and the three height comparisons of the loop body. After every event: survived?, blocks handed to the blockchain module (publisher, height, header '
+            'posted/published before; includes the witnesses of the three repaired findings (group that does not fit arrives '
+            'for a pending block; TxCount 2^40 and 2^45; nil validator), which the node must now survive, and the three height '
+            'comparisons of the loop body. After every event: survived?, blocks handed to the blockchain module (publisher, height, header '
             'fields, MainHash/MainHeight, transaction ids per slot), peer messages published (kind, peer, height), '
             'lengths of the pending and block-request lists. non-trivial = something was posted, published, pending '
             'or crashed; distinct = distinct Gallina case terms',
@@ -50,17 +50,18 @@ SPEC = {
         'inside pubsub), the download and peer-info stream handlers are not (fuzzed by nobody here): status partial',
     ],
     'assumptions': [
-        'C33_recovered_paths_total: guard mem_ok (TxCount not in (c_cap, 2^45]) - without it refuted (finding 2)',
-        'C33_no_panic_outside_recover_partial: guard fits_hist (every group a pool of the history returns for a short hash '
-        'of a light block of the history fits into TxCount at that position) - without it refuted (finding 1)',
-        'C33_no_panic_outside_recover_partial: guard c_noval = false (broadcast validation enabled, the default) - without it '
-        'C33_partial_needs_validation (finding 3)',
+        'C33_recovered_paths_total / C33_no_panic_outside_recover: guard mem_ok = the operating system can provide a slice with '
+        'one element per short hash of a light block the node has received and decoded (length (lt_sh lb) <= c_cap; addLtBlock '
+        'allocates 8+8+16 bytes per counted transaction only after 0 < TxCount <= len(STxHashes) was tested, and the decoded '
+        'hash list already occupies 16 bytes per hash plus the strings). An environment assumption about memory, not about a '
+        'number in the message; C33_crash_characterisation shows it is the only way left to end the process in the model',
         'the block filter (LRU of 1024 hashes) never evicts within a history',
     ],
     'manifest': {
         'level_text': 'partial: proved for the modelled index/allocation/nil logic of the light-block and peer-message paths '
-                      '(two refuted full statements with reproduced witnesses, strongest guarded versions proved, every '
-                      'possible crash characterised); everything else is outside the model',
+                      '(after three repairs in chain33 no history of peer messages, pool changes and loop iterations ends the '
+                      'process or panics in a background loop, given memory for a slice as long as a received hash list; no '
+                      'refuted statement left); everything else is outside the model',
         'level_note': 'model = hand-written Gallina transcription of addLtBlock/buildPendBlock/buildPendList/pendBlockLoop/'
                       'handlePeerMsg/addBlockRequest/handleBlockReqList with explicit Go panic semantics; mempool and chain '
                       'are stubs; hook file builds the component without libp2p',
